@@ -133,6 +133,7 @@ def generate(rng, tier):
                      "peer": rng.choice(["best", "best", "first_improving", "worst_improving", "always_best"])})
     case["max_nodes"] = rng.choice([50, 200]) if case["solver"] == "bp" else None
     case["max_iter"] = rng.choice([None, None, 20, 100])
+    case["seq_as"] = rng.choice(["list", "list", "tuple"])
     case["faults"] = {
         "cancel": rng.random() < 0.8,
         "time_limit": rng.random() if rng.random() < 0.4 else None,
@@ -205,8 +206,9 @@ def run_variant(case, policy, max_iter=None, max_nodes=None):
         with seams.install_clock(clock), budget.steps(STEP_LIMIT):
             fn = mod.solve_cg if solver == "cg" else mod.solve_bp
             # every variant of a case gets the same demand / size / column objects (a caller re-running one instance)
-            inp = case.setdefault("_inputs", {"demands": list(case["demands"]), "sizes": list(case.get("sizes", [])),
-                                              "initial": [tuple(c) for c in case.get("initial", [])]})
+            seq = tuple if case.get("seq_as") == "tuple" else list  # Sequences: tuples are as legal as lists
+            inp = case.setdefault("_inputs", {"demands": seq(case["demands"]), "sizes": seq(case.get("sizes", [])),
+                                              "initial": seq(tuple(c) for c in case.get("initial", []))})
             if case["mode"] == "stock":
                 res = fn(inp["demands"], roll_width=case["W"], piece_sizes=inp["sizes"], **kw)
             else:
